@@ -6,6 +6,7 @@ import (
 	"crypto/sha512"
 	"fmt"
 	"math/big"
+	"runtime"
 	"sync/atomic"
 
 	"github.com/wollac/iota-crypto-demo/pkg/ed25519"
@@ -23,7 +24,7 @@ type c01triple struct {
 
 func runC01(c *core.Ctx) {
 	th := c.Thorough()
-	c.Rule = "structural product: honest signatures (seeds x message lengths around both SHA-512 block boundaries); all 8x8 torsion shifts of A and R in every encoding with the matching S (must verify) and S+1 (must not); S + j*L for every j that fits 256 bits; every pair of the small-order / non-canonical encodings as (A,R) x boundary S values; all single-bit flips of signature and key, all lengths 0..66, bit pairs in the top byte of S; off-curve A and R; every triple judged by a math/big ZIP-215 predicate (two-sided) and by crypto/ed25519 (accepts => must accept); non-trivial = distinct triples the reference accepts"
+	c.Rule = "all call histories of length <=3 over 9 kinds of Verify calls (every early-exit path and every accepting family) on one OS thread: each verdict must equal the ZIP-215 predicate regardless of the calls before it; structural product: honest signatures (seeds x message lengths around both SHA-512 block boundaries); all 8x8 torsion shifts of A and R in every encoding with the matching S (must verify) and S+1 (must not); S + j*L for every j that fits 256 bits; every pair of the small-order / non-canonical encodings as (A,R) x boundary S values; all single-bit flips of signature and key, all lengths 0..66, bit pairs in the top byte of S; off-curve A and R; every triple judged by a math/big ZIP-215 predicate (two-sided) and by crypto/ed25519 (accepts => must accept); non-trivial = distinct triples the reference accepts"
 	var triples []c01triple
 	add := func(pub, msg, sig []byte, tag string) {
 		triples = append(triples, c01triple{append([]byte{}, pub...), msg, append([]byte{}, sig...), tag})
@@ -311,9 +312,77 @@ func runC01(c *core.Ctx) {
 	if int(acc["torsion"]) != nTorsion {
 		c.Abort("reference rejects %d of its own torsion-shifted signatures", nTorsion-int(acc["torsion"]))
 	}
+	c01Histories(c, hs[0].pub[:], hs[0].msg, hs[0].sig[:], small, off)
 	c.Sample(map[string]interface{}{"kind": "torsion", "pub": fmt.Sprintf("%x", triples[len(hs)].pub), "sig": fmt.Sprintf("%x", triples[len(hs)].sig)})
 	c.Sample(map[string]interface{}{"kind": "small-order", "A": fmt.Sprintf("%x", small[3]), "R": fmt.Sprintf("%x", small[9]), "S": 0})
 	c.NonTrivial(accepted.Load())
 	c.SetExhaustive(true)
 	c.Assume = []string{"ref/ed (math/big edwards25519) is the ZIP-215 oracle; validated against RFC 8032 vectors, crypto/ed25519 and filippo.io/edwards25519 decoding in its unit tests", "\"random bytes\" are covered structurally (bit flips, off-curve values), not by hash pre-images"}
+}
+
+// c01Histories: Verify is a function of its arguments; its verdict must not depend on earlier calls. All histories of
+// length <= 3 over calls that take every early exit (length, S range, undecodable A, undecodable R) and every accepting
+// family, on one locked OS thread (so that pooled or cached scratch state, if any, is re-used).
+func c01Histories(c *core.Ctx, pub, msg, sig []byte, small [][32]byte, off [][32]byte) {
+	type op struct {
+		name          string
+		pub, msg, sig []byte
+		want          bool
+	}
+	cat := func(a, b []byte) []byte { return append(append([]byte{}, a...), b...) }
+	zero := make([]byte, 32)
+	ops := []op{
+		{"honest", pub, msg, sig, false},
+		{"undecodable R", pub, msg, cat(off[0][:], sig[32:]), false},
+		{"undecodable A", off[1][:], msg, sig, false},
+		{"S >= L", pub, msg, cat(sig[:32], bytes.Repeat([]byte{0xFF}, 32)), false},
+		{"63-byte signature", pub, msg, sig[:63], false},
+		{"other message", pub, append([]byte("x"), msg...), sig, false},
+		{"small-order A and R, S=0", small[2][:], []byte("m"), cat(small[5][:], zero), false},
+		{"small-order A and R, S=1", small[2][:], []byte("m"), cat(small[5][:], append([]byte{1}, zero[1:]...)), false},
+		{"undecodable R, long message", pub, bytes.Repeat([]byte{7}, 300), cat(off[2][:], sig[32:]), false},
+	}
+	for i := range ops {
+		ops[i].want = ed.VerifyZIP215(ops[i].pub, ops[i].msg, ops[i].sig)
+	}
+	done := make(chan struct{})
+	var seqs int64
+	go func() {
+		defer close(done)
+		runtime.LockOSThread()
+		defer runtime.UnlockOSThread()
+		var rec func(hist []int)
+		rec = func(hist []int) {
+			if len(hist) > 0 {
+				seqs++
+				var got bool
+				var p interface{}
+				for i, o := range hist {
+					x := ops[o]
+					q := core.Catch(func() { got = ed25519.Verify(ed25519.PublicKey(x.pub), x.msg, x.sig) })
+					if i == len(hist)-1 {
+						p = q
+					}
+				}
+				last := ops[hist[len(hist)-1]]
+				if p != nil || got != last.want {
+					names := []string{}
+					for _, o := range hist {
+						names = append(names, ops[o].name)
+					}
+					c.Violate("C01/history/"+last.name, fmt.Sprintf("after Verify calls %v, Verify(%s) = %v (panic %v); the ZIP-215 verdict is %v regardless of history", names[:len(names)-1], last.name, got, p, last.want), names, "", nil)
+				}
+			}
+			if len(hist) == 3 {
+				return
+			}
+			for o := range ops {
+				rec(append(append([]int{}, hist...), o))
+			}
+		}
+		rec(nil)
+	}()
+	<-done
+	c.Eval(seqs)
+	c.Set("call_histories", seqs)
 }
